@@ -5,7 +5,7 @@ import sys
 
 LEVEL = "exploration"
 RULE = ("complete edit neighbourhoods of 39 small valid seed files (9 PBF with raw blobs, 2 PBF with zlib/lz4 blobs, 8 o5m/o5c, 8 XML, "
-        "8 OPL, 4 gzip/bzip2-compressed; gen.py) plus all tiny files, enumerated by rank<->case bijection: "
+        "8 OPL, 6 gzip/bzip2-compressed of which two with two streams / members; gen.py) plus all tiny files, enumerated by rank<->case bijection: "
         "E1 every truncation length (file; for PBF/o5m also the content of every length field with the framing / all enclosing lengths recomputed); "
         "E2 every single-byte substitution (quick: position x 17 interesting values {00,01,7f,80,ff,\",<,&,%,comma,=,@,space,LF,b+1,b-1,b^80}; "
         "thorough: x all 255 other values); E3 every single-byte deletion and every insertion of the 14 interesting constants at every position "
